@@ -41,10 +41,14 @@ class Spec:
         return s
 
 
-def run(spec, seed, attack=None, flood=None):
+def run(spec, seed, attack=None, flood=None, probes=None):
     """attack(sim, out, rng) installs hooks (sim.net.on_tx / scheduled injections) before the session starts.
     flood = dict(vport, version, n, size): a further, perfectly valid peer connects, makes its handler busy with one slow
-    request and then sends n messages that nobody reads (a hostile peer needs no malformed traffic)."""
+    request and then sends n messages that nobody reads (a hostile peer needs no malformed traffic).
+    probes = [(vport, stream type)]: a third party tries to connect, with the ordinary client, to (port, type) pairs nobody serves.
+    Entries of spec.vports and the "vport" of a client may be (port, type) pairs (default type 10)."""
+    def pt(x):
+        return (x, 10) if isinstance(x, int) else tuple(x)
     rng = random.Random(seed)
     arng = random.Random(seed ^ 0x5A5A5A5A)      # the attacker's PRNG: the victims' script must not depend on it
     out = ps.Session()
@@ -59,6 +63,8 @@ def run(spec, seed, attack=None, flood=None):
     out.connect_errors = {}
     out.flood_addr = None
     out.flood_sent = 0
+    out.probe_addrs = set()
+    out.probe_results = []
     with Sim(seed) as sim:
         sim.install_factories()
         log = sim.net.log
@@ -68,7 +74,7 @@ def run(spec, seed, attack=None, flood=None):
             import zlib
             seen = {}
             def fate(tx):
-                if tx.src == ATTACKER or tx.src == out.flood_addr:
+                if tx.src == ATTACKER or tx.src == out.flood_addr or tx.src in out.probe_addrs:
                     return [0.0]
                 k = seen.get((tx.src, tx.data), 0); seen[(tx.src, tx.data)] = k + 1
                 h = zlib.crc32(tx.data + bytes([k & 0xFF]) + tx.src[0].encode() + tx.src[1].to_bytes(2, "little") + seed.to_bytes(8, "little"))
@@ -129,7 +135,7 @@ def run(spec, seed, attack=None, flood=None):
             if spec.key:
                 creds, _ = ps.make_credentials(s, random.Random(seed * 31 + i), s["kerberos.key_size"], pid=1000 + i, server_key=spec.key)
             try:
-                async with prudp.connect(s, SERVER[0], SERVER[1], c["vport"], credentials=creds) as client:
+                async with prudp.connect(s, SERVER[0], SERVER[1], pt(c["vport"])[0], pt(c["vport"])[1], credentials=creds) as client:
                     out.client_addr[i] = client.local_address()
                     log.append(("app", sim.now(), "c%d" % i, "connected", 0, b""))
                     got = out.got.setdefault(i, [])
@@ -164,16 +170,44 @@ def run(spec, seed, attack=None, flood=None):
                 out.flood_error = repr(e)[:200]
                 raise
 
+        async def prober():
+            async with anyio.create_task_group() as ptg:
+                for j, (vp, ty) in enumerate(probes):
+                    ptg.start_soon(probe_one, j, vp, ty)
+
+        async def probe_one(j, vp, ty):
+            await anyio.sleep(quant(0.25 + 0.05 * j))
+            if True:
+                s = spec.settings(1 if spec.server_version != 0 else 0)
+                s["prudp.resend_timeout"] = 0.25; s["prudp.resend_limit"] = 1
+                creds = None
+                if spec.key:
+                    creds, _ = ps.make_credentials(s, random.Random(seed * 31 + 77), s["kerberos.key_size"], pid=7777, server_key=spec.key)
+                try:
+                    async with prudp.connect_transport(s, SERVER[0], SERVER[1]) as tr:
+                        out.probe_addrs.add(tr.socket.local_address())
+                        async with tr.connect(vp, ty, creds) as client:
+                            got = None
+                            await client.send(b"PROBE")
+                            with anyio.move_on_after(quant(0.5)):
+                                got = await client.recv()
+                            out.probe_results.append((vp, ty, "connected", got))
+                except BaseException as e:
+                    if isinstance(e, (anyio.get_cancelled_exc_class(),)):
+                        raise
+                    out.probe_results.append((vp, ty, "failed", None))
+
         async def main():
             async with prudp.serve_transport(ss, SERVER[0], SERVER[1]) as transport:
                 out.transport = transport
                 async with anyio.create_task_group() as outer:
                     ctxs = []
-                    for vp in spec.vports:
-                        cm = transport.serve(make_handler(vp), vp, 10, spec.key)
+                    for vpx in spec.vports:
+                        vp, ty = pt(vpx)
+                        cm = transport.serve(make_handler(vp), vp, ty, spec.key)
                         await cm.__aenter__()
                         ctxs.append(cm)
-                        streams[vp] = transport.ports.get(vp, 10)
+                        streams[vp] = transport.ports.get(vp, ty)
                     if attack:
                         attack(sim, out, arng)
                     async with anyio.create_task_group() as tg:
@@ -187,6 +221,8 @@ def run(spec, seed, attack=None, flood=None):
                         tg.start_soon(watcher)
                         if flood:
                             tg.start_soon(flooder)
+                        if probes:
+                            tg.start_soon(prober)
                         await anyio.sleep(quant(spec.rounds * 0.6 + 2.0))
                         tg.cancel_scope.cancel()
                     await anyio.sleep(quant(spec.resend_timeout * (spec.resend_limit + 2) + 0.5))
@@ -217,7 +253,7 @@ def victim_view(sess):
     """what the genuine parties observed: per endpoint address the datagrams it emitted, what clients received, what
     the server's handlers received per (vport, peer)"""
     tx = {}
-    hostile = {ATTACKER, getattr(sess, "flood_addr", None)}
+    hostile = {ATTACKER, getattr(sess, "flood_addr", None)} | set(getattr(sess, "probe_addrs", ()))
     for e in sess.netlog:
         if e[0] == "tx" and e[3] not in hostile:
             tx.setdefault(e[3], []).append((ticks(e[2]), e[4], e[5]))
